@@ -674,7 +674,7 @@ func (x *Exec) inlineBody(fi *FuncInfo, sig *types.Signature, body *ast.BlockStm
 	}
 	var ft *ast.FuncType
 	var recvFL *ast.FieldList
-	fr := &Frame{fi: fi, sig: sig, name: name}
+	fr := &Frame{fi: fi, sig: sig, name: name, lit: lit}
 	if fi != nil {
 		ft, recvFL = fi.Decl.Type, fi.Decl.Recv
 		fr.loopOrd = fi.LoopOrd
